@@ -41,7 +41,8 @@ def expected(ms):
 
 
 def member(rng, name_len=None, size=None, blank=False):
-    names = [b"debian-binary", b"control.tar.gz", b"data.tar.xz", b"_gpgorigin", b"a", b"x.y", b"file with sp"]
+    names = [b"debian-binary", b"control.tar.gz", b"data.tar.xz", b"_gpgorigin", b"a", b"x.y", b"file with sp",
+             b"/7", b"/0", b"/123456", b"#1/20", b"__.SYMDEF", b"/abc"]      # GNU / BSD special spellings are plain names here
     if name_len is None:
         name = rng.choice(names)
         slash = rng.random() < 0.3 and len(name) < 16
